@@ -399,6 +399,20 @@ def budget(prog, rep, L):
                           "the body length is adjusted outside addbody: appended bytes and accounted bytes no longer agree "
                           "(bytes that are not body were appended, then subtracted)",
                           function=f.name, construct="bodylen-adjust")
+    # (v') a response is declared too big only when bytes that are known to be body would not fit: every call of toobig sits on an
+    # edge that says "this many more bytes > what the limit leaves" (strictly), never on a mere "the limit has been reached" -- a
+    # body of exactly the limit, followed by the last-chunk line or the end of the stream, is within the limit
+    for f in [g for g in u.funcs if g.file == UNIT]:
+        for c in f.calls("toobig"):
+            at = [(op, L, R) for cond, truth in f.edge_conds(c) for op, L, R, _, _ in cond_atoms(cond, truth)]
+
+            def mentions_max(t):
+                return any(isinstance(x, tuple) and x and x[0] == "." and x[2] == "res_bodylen_max" for x in subterms(t))
+            strict = [a for a in at if (a[0] == ">" and mentions_max(a[2]) and not mentions_max(a[1])) or (a[0] == "<" and mentions_max(a[1]) and not mentions_max(a[2]))]
+            loose = [a for a in at if (mentions_max(a[1]) or mentions_max(a[2])) and a not in strict and a[0] in ("==", ">=", "<=")
+                     and not any(s[0] in (">", "<") and {s[1], s[2]} == {a[1], a[2]} for s in strict)]
+            rep.check(bool(strict) and not loose, "B1-toobig", "toobig in %s: only when more bytes are known to follow than the limit leaves" % f.name, c.where,
+                      "guards mentioning the limit: %s" % [(o, show(l), show(r)) for o, l, r in at if mentions_max(l) or mentions_max(r)], function=f.name, construct="toobig-guard")
     # (v) toobig
     tb = u.func("toobig")
     dc = [c for c in tb.calls("docallback")]
